@@ -289,7 +289,10 @@ def run_tlc(module, cfg=None, modules_dir=None, extra_files=(), env=None, worker
             e.update({k: str(v) for k, v in env.items()})
         e.setdefault("LANG", "C.UTF-8")
         e["LC_ALL"] = "C.UTF-8"
-        cmd = ["timeout", str(timeout), "java", "-XX:+UseParallelGC", "-Xmx" + heap, "-Dfile.encoding=UTF-8", "-Dstdout.encoding=UTF-8",
+        # TLC leaves an empty tlc-<n> directory in java.io.tmpdir per run: keep it inside the scratch copy, which is removed
+        jtmp = os.path.join(run_dir, "jtmp")
+        os.makedirs(jtmp, exist_ok=True)
+        cmd = ["timeout", str(timeout), "java", "-XX:+UseParallelGC", "-Xmx" + heap, "-Djava.io.tmpdir=" + jtmp, "-Dfile.encoding=UTF-8", "-Dstdout.encoding=UTF-8",
                "-Dsun.stdout.encoding=UTF-8", "-cp", TLA_CP, "tlc2.TLC",
                "-workers", str(workers), "-metadir", os.path.join(run_dir, "meta"), "-cleanup", "-noGenerateSpecTE",
                "-config", cfg]
